@@ -23,6 +23,7 @@ type c04Case struct {
 	Tag      string   `json:"tag,omitempty"`
 	Shared   bool     `json:"shared_mention"`
 	HasFiles bool     `json:"has_files,omitempty"`
+	Opts     loadOpts `json:"opts"`
 }
 
 // sortKeyedLists puts the lists whose entry order the specification does not fix (keyed lists) into a
@@ -147,6 +148,18 @@ func genC04(t *rapid.T) c04Case {
 	sp := &splitter{t: t, n: rapid.IntRange(2, 4).Draw(t, "nparts"), used: map[string]int{}}
 	parts := sp.splitModel(target)
 	cs := c04Case{AsDocs: rapid.IntRange(0, 2).Draw(t, "asdocs") == 0, HasFiles: files}
+	// the merge rules do not depend on the later stages a caller may switch off
+	if rapid.IntRange(0, 3).Draw(t, "optset") == 0 {
+		switch rapid.IntRange(0, 2).Draw(t, "optwhich") {
+		case 0:
+			cs.Opts.SkipNormalization = true
+		case 1:
+			cs.Opts.SkipConsistencyCheck = true
+		case 2:
+			cs.Opts.NoResolvePaths = !files
+			cs.Opts.SkipNormalization = true
+		}
+	}
 	if rapid.IntRange(0, 3).Draw(t, "usetag") == 0 {
 		cs.Tag, target = applyTag(t, target, parts)
 	}
@@ -165,7 +178,7 @@ func genC04(t *rapid.T) c04Case {
 }
 
 func c04Load(cs c04Case, docs []string, asDocs bool) (loadResult, string) {
-	lc := loadCase{Env: map[string]string{"SECRET_token": "tok", "SECRET_cert": "c", "SECRET_apikey": "k"}}
+	lc := loadCase{Env: map[string]string{"SECRET_token": "tok", "SECRET_cert": "c", "SECRET_apikey": "k"}, Opts: cs.Opts}
 	if asDocs {
 		lc.Files = []memFile{{Name: "compose.yaml", Content: strings.Join(docs, "---\n")}}
 		lc.Main = []string{"compose.yaml"}
@@ -198,6 +211,9 @@ func c04Check(c *Ctx, cs c04Case) *Failure {
 	}
 	if cs.Tag != "" {
 		c.Label("tag:" + strings.SplitN(cs.Tag, ":", 2)[0])
+	}
+	if cs.Opts.SkipNormalization || cs.Opts.SkipConsistencyCheck || cs.Opts.NoResolvePaths {
+		c.Label("with-loader-options")
 	}
 	if cs.AsDocs {
 		c.Label("as-documents")
